@@ -101,18 +101,39 @@ def run_case(case):
     chosen = None
     wit0 = {"case": case, "zMax": zMax, "rMin": c.rMin, "rMax": c.rMax}
     iota_all = c.iota(eta[0])
-    for k in range(P):
-        layout = Layout('v_parallel_1d', [P], [0, 2, 1], eta, [k])
+    # the layout the operator is built for: r distributed and stored first (the driver's choice), r distributed but stored
+    # second (after z), or r stored last and not distributed at all (theta distributed) -- the local-index mapping must follow
+    lkind = case["seed"] % 4
+    rank_list = list(range(P))
+    for k in rank_list:
+        if lkind == 1 and nz >= 2:
+            layout = Layout('z_r_theta', [2, P], [2, 0, 1], eta, [k % 2, k])
+        elif lkind == 2 and nth >= P:
+            layout = Layout('theta_z_r', [P], [1, 2, 0], eta, [k])
+        else:
+            layout = Layout('v_parallel_1d', [P], [0, 2, 1], eta, [k])
+        rpos = int(list(layout.dims_order).index(0))
         op = adv.ParallelGradient(bs[1], eta, layout, c, order)
         # a second live operator with a different order (built after, never used): must not influence the first
         other = [o for o in range(2, 7) if o != order and nz > o]
         decoy = adv.ParallelGradient(bs[1], eta, layout, c, other[(k + order) % len(other)]) if other else None
-        r0 = int(layout.starts[0])
-        for i in range(int(layout.shape[0])):
+        r0 = int(layout.starts[rpos])
+        for i in range(int(layout.shape[rpos])):
             I = r0 + i
             phi = rs.standard_normal((nz, nth))
+            # storage type of the potential handed in: the result is that of the same numbers in double precision
+            pk = (case["seed"] // 4 + I) % 5
+            if pk == 3:
+                phi = np.round(phi * 3.0)
+                phi_in = phi.astype(np.int64)
+            elif pk == 4:
+                phi = phi.astype(np.float32).astype(float)
+                phi_in = phi.astype(np.float32)
+            else:
+                phi_in = phi.copy()
             got = np.full((nz, nth), np.nan)
-            op.parallel_gradient(phi.copy(), i, got)
+            op.parallel_gradient(phi_in, i, got)
+            cls.add("%s/layout-%s/phi-%s" % (base, ("r-first", "r-second", "r-last-undistributed", "r-first")[lkind], ("float64", "float64", "float64", "int64", "float32")[pk]))
             bz = float(pg.bz(eta[0][I], iota_all[I], R0))
             if abs(iota_all[I]) * (n // 2) * dz / R0 > 2 * pi:
                 ev["multi_turn_shifts"] += 1
